@@ -62,7 +62,9 @@ pub fn split_blocks(s: &str) -> Option<Vec<(u8, String)>> {
 }
 
 pub fn block4_of(s: &str) -> String {
-    split_blocks(s).and_then(|v| v.into_iter().find(|(n, _)| *n == 4).map(|x| x.1)).unwrap_or_default()
+    split_blocks(s)
+        .and_then(|v| v.into_iter().find(|(n, _)| *n == 4).map(|x| x.1))
+        .unwrap_or_default()
 }
 
 /// `{tag:value}` pairs of a block 3 / block 5 content
@@ -135,11 +137,21 @@ fn digits(src: &mut Src, n: usize) -> String {
     (0..n).map(|_| src.pick_char("0123456789")).collect()
 }
 fn upper(src: &mut Src, n: usize) -> String {
-    (0..n).map(|_| src.pick_char("ABCDEFGHIJKLMNOPQRSTUVWXYZ")).collect()
+    (0..n)
+        .map(|_| src.pick_char("ABCDEFGHIJKLMNOPQRSTUVWXYZ"))
+        .collect()
 }
 fn xtext(src: &mut Src, min: usize, max: usize) -> String {
     let n = src.range(min, max);
-    (0..n).map(|i| if i == 0 { src.pick_char("ABCDEFGHIJKLMNOPQRSTUVWXYZ") } else { src.pick_char("ABCDEFGHIJKLMNOPQRSTUVWXYZ0123456789-.") }).collect()
+    (0..n)
+        .map(|i| {
+            if i == 0 {
+                src.pick_char("ABCDEFGHIJKLMNOPQRSTUVWXYZ")
+            } else {
+                src.pick_char("ABCDEFGHIJKLMNOPQRSTUVWXYZ0123456789-.")
+            }
+        })
+        .collect()
 }
 
 pub fn gen_lt12(src: &mut Src) -> String {
@@ -153,11 +165,24 @@ pub fn gen_lt12(src: &mut Src) -> String {
 }
 
 pub fn gen_b1(src: &mut Src) -> String {
-    format!("{}{}{}{}{}", src.pick(&["F", "A", "L"]), src.pick(&["01", "03", "05", "21"]), gen_lt12(src), digits(src, 4), digits(src, 6))
+    format!(
+        "{}{}{}{}{}",
+        src.pick(&["F", "A", "L"]),
+        src.pick(&["01", "03", "05", "21"]),
+        gen_lt12(src),
+        digits(src, 4),
+        digits(src, 6)
+    )
 }
 
 pub fn gen_mir(src: &mut Src) -> String {
-    format!("{}{}{}{}", gen_date6(src), gen_lt12(src), digits(src, 4), digits(src, 6))
+    format!(
+        "{}{}{}{}",
+        gen_date6(src),
+        gen_lt12(src),
+        digits(src, 4),
+        digits(src, 6)
+    )
 }
 
 pub fn gen_b2(mt: &str, src: &mut Src) -> String {
@@ -173,7 +198,14 @@ pub fn gen_b2(mt: &str, src: &mut Src) -> String {
         }
         s
     } else {
-        let mut s = format!("O{}{}{}{}{}", mt, gen_time4(src), gen_mir(src), gen_date6(src), gen_time4(src));
+        let mut s = format!(
+            "O{}{}{}{}{}",
+            mt,
+            gen_time4(src),
+            gen_mir(src),
+            gen_date6(src),
+            gen_time4(src)
+        );
         if src.flip() {
             s.push_str(*src.pick(&["N", "U", "S"]));
         }
@@ -181,7 +213,9 @@ pub fn gen_b2(mt: &str, src: &mut Src) -> String {
     }
 }
 
-pub const B3_TAGS: &[&str] = &["103", "113", "108", "119", "423", "106", "424", "111", "121", "115", "165", "433", "434"];
+pub const B3_TAGS: &[&str] = &[
+    "103", "113", "108", "119", "423", "106", "424", "111", "121", "115", "165", "433", "434",
+];
 pub const B5_TAGS: &[&str] = &["CHK", "TNG", "PDE", "DLM", "MRF", "PDM", "SYS", "MAC"];
 
 pub fn gen_b3_value(tag: &str, src: &mut Src) -> String {
@@ -190,39 +224,76 @@ pub fn gen_b3_value(tag: &str, src: &mut Src) -> String {
         "113" => upper(src, 4),
         "108" => format!("MUR{}", xtext(src, 1, 13)),
         "119" => src.pick(&["STP", "REMIT", "RFDD", "COV"]).to_string(),
-        "423" => format!("{}{}{}{}", gen_date6(src), gen_time4(src), format!("{:02}", src.below(60)), if src.flip() { format!("{:02}", src.below(100)) } else { String::new() }),
+        "423" => format!(
+            "{}{}{}{}",
+            gen_date6(src),
+            gen_time4(src),
+            format!("{:02}", src.below(60)),
+            if src.flip() {
+                format!("{:02}", src.below(100))
+            } else {
+                String::new()
+            }
+        ),
         "106" => gen_mir(src),
         "424" => format!("REL{}", xtext(src, 1, 13)),
         "111" => digits(src, 3),
         "121" => {
-            let h = |src: &mut Src, n: usize| -> String { (0..n).map(|_| src.pick_char("0123456789abcdef")).collect() };
-            format!("{}-{}-4{}-a{}-{}", h(src, 8), h(src, 4), h(src, 3), h(src, 3), h(src, 12))
+            let h = |src: &mut Src, n: usize| -> String {
+                (0..n).map(|_| src.pick_char("0123456789abcdef")).collect()
+            };
+            format!(
+                "{}-{}-4{}-a{}-{}",
+                h(src, 8),
+                h(src, 4),
+                h(src, 3),
+                h(src, 3),
+                h(src, 12)
+            )
         }
         "115" => format!("ADDR{}", xtext(src, 1, 28)),
         "165" => format!("{}/{}", upper(src, 3), format!("PRI{}", xtext(src, 1, 30))),
         "433" => {
             let c = src.pick(&["AOK", "FPO", "NOK"]).to_string();
-            if src.flip() { format!("{c}/SAN{}", xtext(src, 1, 16)) } else { c }
+            if src.flip() {
+                format!("{c}/SAN{}", xtext(src, 1, 16))
+            } else {
+                c
+            }
         }
         "434" => {
             let c = upper(src, 3);
-            if src.flip() { format!("{c}/PCI{}", xtext(src, 1, 16)) } else { c }
+            if src.flip() {
+                format!("{c}/PCI{}", xtext(src, 1, 16))
+            } else {
+                c
+            }
         }
         _ => unreachable!(),
     }
 }
 
 pub fn gen_b5_value(tag: &str, src: &mut Src) -> String {
-    let hex = |src: &mut Src, n: usize| -> String { (0..n).map(|_| src.pick_char("0123456789ABCDEF")).collect() };
+    let hex = |src: &mut Src, n: usize| -> String {
+        (0..n).map(|_| src.pick_char("0123456789ABCDEF")).collect()
+    };
     match tag {
         "CHK" => hex(src, 12),
         "MAC" => hex(src, 8),
         "TNG" | "DLM" => String::new(),
         "PDE" | "SYS" => {
-            if src.flip() { format!("{}{}", gen_time4(src), gen_mir(src)) } else { String::new() }
+            if src.flip() {
+                format!("{}{}", gen_time4(src), gen_mir(src))
+            } else {
+                String::new()
+            }
         }
         "PDM" => {
-            if src.flip() { format!("{}{}", gen_time4(src), gen_mir(src)) } else { String::new() }
+            if src.flip() {
+                format!("{}{}", gen_time4(src), gen_mir(src))
+            } else {
+                String::new()
+            }
         }
         "MRF" => format!("{}{}{}", gen_date6(src), gen_time4(src), gen_mir(src)),
         _ => unreachable!(),
@@ -241,7 +312,10 @@ fn subset<'a>(tags: &[&'a str], src: &mut Src) -> Vec<&'a str> {
 
 /// minimal valid body of a type: all generator choices at their first alternative
 pub fn minimal_body(mt: &str) -> String {
-    let data: Vec<u32> = Vec::new();
+    // first alternatives for the structure, short-but-not-degenerate contents
+    let data: Vec<u32> = (0..400)
+        .map(|i| if i % 2 == 0 { 0 } else { 0x3000_0000 })
+        .collect();
     let mut src = Src::new(&data);
     let m = gen_valid_msg(mt, &mut src);
     let mut s = String::new();
@@ -254,9 +328,36 @@ pub fn minimal_body(mt: &str) -> String {
 pub fn gen_env(mt: &str, src: &mut Src) -> EnvCase {
     let b1 = gen_b1(src);
     let b2 = gen_b2(mt, src);
-    let b3 = if src.chance(2, 3) { Some(subset(B3_TAGS, src).into_iter().map(|t| (t.to_string(), gen_b3_value(t, src))).collect()) } else { None };
-    let b5 = if src.chance(2, 3) { Some(subset(B5_TAGS, src).into_iter().map(|t| (t.to_string(), gen_b5_value(t, src))).collect()) } else { None };
-    let mut c = EnvCase { mt: mt.to_string(), b1, b2, b3, b5, body: minimal_body(mt), near_miss: String::new(), marker: String::new() };
+    let b3 = if src.chance(2, 3) {
+        Some(
+            subset(B3_TAGS, src)
+                .into_iter()
+                .map(|t| (t.to_string(), gen_b3_value(t, src)))
+                .collect(),
+        )
+    } else {
+        None
+    };
+    let b5 = if src.chance(2, 3) {
+        Some(
+            subset(B5_TAGS, src)
+                .into_iter()
+                .map(|t| (t.to_string(), gen_b5_value(t, src)))
+                .collect(),
+        )
+    } else {
+        None
+    };
+    let mut c = EnvCase {
+        mt: mt.to_string(),
+        b1,
+        b2,
+        b3,
+        b5,
+        body: minimal_body(mt),
+        near_miss: String::new(),
+        marker: String::new(),
+    };
     match src.below(10) {
         0 => {
             // block 1 of wrong length
@@ -282,13 +383,28 @@ pub fn gen_env(mt: &str, src: &mut Src) -> EnvCase {
         1 => {
             if c.b2.starts_with('I') {
                 let base: String = c.b2.chars().take(17).collect();
-                let (n, t) = *src.pick(&[("I-len16", ""), ("I-len19", "20"), ("I-len20", "200"), ("I-len22", "20031"), ("I-len25", "2003ZZZZ")]);
-                c.b2 = if n == "I-len16" { base[..16].to_string() } else { format!("{base}{t}") };
+                let (n, t) = *src.pick(&[
+                    ("I-len16", ""),
+                    ("I-len19", "20"),
+                    ("I-len20", "200"),
+                    ("I-len22", "20031"),
+                    ("I-len25", "2003ZZZZ"),
+                ]);
+                c.b2 = if n == "I-len16" {
+                    base[..16].to_string()
+                } else {
+                    format!("{base}{t}")
+                };
                 c.near_miss = n.into();
             } else {
                 let base: String = c.b2.chars().take(46).collect();
-                let (n, t) = *src.pick(&[("O-len45", ""), ("O-len48", "NX"), ("O-len54", "TRAILING")]);
-                c.b2 = if n == "O-len45" { base[..45].to_string() } else { format!("{base}{t}") };
+                let (n, t) =
+                    *src.pick(&[("O-len45", ""), ("O-len48", "NX"), ("O-len54", "TRAILING")]);
+                c.b2 = if n == "O-len45" {
+                    base[..45].to_string()
+                } else {
+                    format!("{base}{t}")
+                };
                 c.near_miss = n.into();
             }
         }
@@ -299,7 +415,16 @@ pub fn gen_env(mt: &str, src: &mut Src) -> EnvCase {
         }
         3 | 4 => {
             if mt == "103" {
-                c.marker = src.pick(&["{5:{CHK:FFFFFFFFFFFF", "{3:{108:FAKEMUR", "{3:{119:COV", "{2:O1031200", "{1:F01FAKEBANKAXXX", "{5:{MAC:00000000"]).to_string();
+                c.marker = src
+                    .pick(&[
+                        "{5:{CHK:FFFFFFFFFFFF",
+                        "{3:{108:FAKEMUR",
+                        "{3:{119:COV",
+                        "{2:O1031200",
+                        "{1:F01FAKEBANKAXXX",
+                        "{5:{MAC:00000000",
+                    ])
+                    .to_string();
             }
         }
         _ => {}
@@ -320,39 +445,83 @@ pub fn oracle(c: &EnvCase, obs: &mut Obs) -> Vec<Violation> {
     let mut out = Vec::new();
     let x = c.text();
     let res = (msg_ops(&c.mt).parse_full)(&x);
-    obs.class(if c.near_miss.is_empty() { if c.marker.is_empty() { "well-formed" } else { "marker-in-77T" } } else { "near-miss" });
+    obs.class(if c.near_miss.is_empty() {
+        if c.marker.is_empty() {
+            "well-formed"
+        } else {
+            "marker-in-77T"
+        }
+    } else {
+        "near-miss"
+    });
     obs.class(if res.is_ok() { "accepted" } else { "rejected" });
-    if c.b3.as_ref().map(|v| !v.is_empty()).unwrap_or(false) || c.b5.as_ref().map(|v| !v.is_empty()).unwrap_or(false) || c.b2.len() > 17 || !c.near_miss.is_empty() {
+    if c.b3.as_ref().map(|v| !v.is_empty()).unwrap_or(false)
+        || c.b5.as_ref().map(|v| !v.is_empty()).unwrap_or(false)
+        || c.b2.len() > 17
+        || !c.near_miss.is_empty()
+    {
         obs.nontrivial_str(&x);
     }
-    obs.sample(if c.near_miss.is_empty() { "well-formed" } else { "near-miss" }, || json!({"text": x, "near_miss": c.near_miss}));
+    obs.sample(
+        if c.near_miss.is_empty() {
+            "well-formed"
+        } else {
+            "near-miss"
+        },
+        || json!({"text": x, "near_miss": c.near_miss}),
+    );
     let m = match res {
         Ok(m) => m,
         Err(e) => {
             if c.near_miss.is_empty() && !e.is_panic() {
-                out.push(viol(format!("C10|rejected|{}", crate::props::c03::error_tag(&e)), format!("well-formed envelope rejected: {}\n{}", e.text(), x)));
+                out.push(viol(
+                    format!("C10|rejected|{}", crate::props::c03::error_tag(&e)),
+                    format!("well-formed envelope rejected: {}\n{}", e.text(), x),
+                ));
             }
             return out;
         }
     };
     if !c.near_miss.is_empty() {
-        out.push(viol(format!("C10|partial-read|{}", c.near_miss), format!("malformed header ({}) accepted: block1 {:?} block2 {:?}; re-emitted {:?} / {:?}", c.near_miss, c.b1, c.b2, m.block1, m.block2)));
+        out.push(viol(
+            format!("C10|partial-read|{}", c.near_miss),
+            format!(
+                "malformed header ({}) accepted: block1 {:?} block2 {:?}; re-emitted {:?} / {:?}",
+                c.near_miss, c.b1, c.b2, m.block1, m.block2
+            ),
+        ));
         return out;
     }
     let blocks = match split_blocks(&m.mt_message) {
         Some(b) => b,
         None => {
-            out.push(viol("C10|output-unsplittable", format!("to_mt_message output has no clean block structure:\n{}", m.mt_message)));
+            out.push(viol(
+                "C10|output-unsplittable",
+                format!(
+                    "to_mt_message output has no clean block structure:\n{}",
+                    m.mt_message
+                ),
+            ));
             return out;
         }
     };
     let get = |n: u8| blocks.iter().find(|(k, _)| *k == n).map(|x| x.1.clone());
     if get(1).as_deref() != Some(c.b1.as_str()) {
-        out.push(viol("C10|block1|changed", format!("block 1 {:?} re-emitted as {:?}", c.b1, get(1))));
+        out.push(viol(
+            "C10|block1|changed",
+            format!("block 1 {:?} re-emitted as {:?}", c.b1, get(1)),
+        ));
     }
     if get(2).as_deref() != Some(c.b2.as_str()) {
-        let kind = if c.b2.starts_with('I') { format!("I{}", c.b2.len()) } else { format!("O{}", c.b2.len()) };
-        out.push(viol(format!("C10|block2|changed|{kind}"), format!("block 2 {:?} re-emitted as {:?}", c.b2, get(2))));
+        let kind = if c.b2.starts_with('I') {
+            format!("I{}", c.b2.len())
+        } else {
+            format!("O{}", c.b2.len())
+        };
+        out.push(viol(
+            format!("C10|block2|changed|{kind}"),
+            format!("block 2 {:?} re-emitted as {:?}", c.b2, get(2)),
+        ));
     }
     for (n, input, key) in [(3u8, &c.b3, "user_header"), (5u8, &c.b5, "trailer")] {
         let hj = m.json.get(key).cloned().unwrap_or(Value::Null);
@@ -363,12 +532,30 @@ pub fn oracle(c: &EnvCase, obs: &mut Obs) -> Vec<Violation> {
                 if same {
                     continue;
                 }
-                let held = if v.is_empty() { hj.as_object().map(|o| !o.is_empty()).unwrap_or(false) && false } else { recognised(&hj, v) };
+                let held = if v.is_empty() {
+                    hj.as_object().map(|o| !o.is_empty()).unwrap_or(false) && false
+                } else {
+                    recognised(&hj, v)
+                };
                 let present = outp.iter().any(|(a, _)| a == t);
                 if present {
-                    out.push(viol(format!("C10|block{n}|{t}|changed"), format!("tag {t} value {:?} re-emitted as {:?}", v, outp.iter().find(|(a, _)| a == t).map(|x| &x.1))));
+                    out.push(viol(
+                        format!("C10|block{n}|{t}|changed"),
+                        format!(
+                            "tag {t} value {:?} re-emitted as {:?}",
+                            v,
+                            outp.iter().find(|(a, _)| a == t).map(|x| &x.1)
+                        ),
+                    ));
                 } else if held {
-                    out.push(viol(format!("C10|block{n}|{t}|dropped"), format!("tag {t}:{v} is read into the header ({}) but not serialised: {:?}", hj, get(n))));
+                    out.push(viol(
+                        format!("C10|block{n}|{t}|dropped"),
+                        format!(
+                            "tag {t}:{v} is read into the header ({}) but not serialised: {:?}",
+                            hj,
+                            get(n)
+                        ),
+                    ));
                 } else {
                     obs.excluded(&format!("unrecognised-tag:{t}"));
                 }
@@ -376,11 +563,23 @@ pub fn oracle(c: &EnvCase, obs: &mut Obs) -> Vec<Violation> {
         }
         // nothing invented
         for (t, v) in &outp {
-            let given = input.as_ref().map(|ts| ts.iter().any(|(a, b)| a == t && b == v)).unwrap_or(false);
+            let given = input
+                .as_ref()
+                .map(|ts| ts.iter().any(|(a, b)| a == t && b == v))
+                .unwrap_or(false);
             if !given {
-                let had_tag = input.as_ref().map(|ts| ts.iter().any(|(a, _)| a == t)).unwrap_or(false);
+                let had_tag = input
+                    .as_ref()
+                    .map(|ts| ts.iter().any(|(a, _)| a == t))
+                    .unwrap_or(false);
                 if !had_tag {
-                    out.push(viol(format!("C10|block{n}|{t}|invented"), format!("output carries {{{t}:{v}}} that the input did not have: input {:?}", input)));
+                    out.push(viol(
+                        format!("C10|block{n}|{t}|invented"),
+                        format!(
+                            "output carries {{{t}:{v}}} that the input did not have: input {:?}",
+                            input
+                        ),
+                    ));
                 }
             }
         }
@@ -390,10 +589,24 @@ pub fn oracle(c: &EnvCase, obs: &mut Obs) -> Vec<Violation> {
         let mut plain = c.clone();
         plain.marker = String::new();
         if let Ok(p) = (msg_ops(&c.mt).parse_full)(&plain.text()) {
-            for key in ["basic_header", "application_header", "user_header", "trailer"] {
+            for key in [
+                "basic_header",
+                "application_header",
+                "user_header",
+                "trailer",
+            ] {
                 if p.json.get(key) != m.json.get(key) {
                     let mk: String = c.marker.chars().take(3).collect();
-                    out.push(viol(format!("C10|block-misassigned|{}|{}", mk, key), format!("a 77T value containing {:?} changes {}: {:?} vs {:?}", c.marker, key, m.json.get(key), p.json.get(key))));
+                    out.push(viol(
+                        format!("C10|block-misassigned|{}|{}", mk, key),
+                        format!(
+                            "a 77T value containing {:?} changes {}: {:?} vs {:?}",
+                            c.marker,
+                            key,
+                            m.json.get(key),
+                            p.json.get(key)
+                        ),
+                    ));
                 }
             }
         }
@@ -414,31 +627,51 @@ pub fn gen_hdr(src: &mut Src) -> HdrCase {
     let (text, class) = match kind {
         1 => (gen_b1(src), "b1"),
         2 => (gen_b2(mt, src), "b2"),
-        3 => (subset(B3_TAGS, src).into_iter().map(|t| format!("{{{}:{}}}", t, gen_b3_value(t, src))).collect::<String>(), "b3"),
+        3 => (
+            subset(B3_TAGS, src)
+                .into_iter()
+                .map(|t| format!("{{{}:{}}}", t, gen_b3_value(t, src)))
+                .collect::<String>(),
+            "b3",
+        ),
         _ => (
             subset(B5_TAGS, src)
                 .into_iter()
                 .map(|t| {
                     let v = gen_b5_value(t, src);
-                    if v.is_empty() && (t == "TNG" || t == "DLM") { format!("{{{t}}}") } else { format!("{{{t}:{v}}}") }
+                    if v.is_empty() && (t == "TNG" || t == "DLM") {
+                        format!("{{{t}}}")
+                    } else {
+                        format!("{{{t}:{v}}}")
+                    }
                 })
                 .collect::<String>(),
             "b5",
         ),
     };
-    HdrCase { kind, text, class: class.into() }
+    HdrCase {
+        kind,
+        text,
+        class: class.into(),
+    }
 }
 
 pub fn hdr_oracle(c: &HdrCase, obs: &mut Obs) -> Vec<Violation> {
     let mut out = Vec::new();
     obs.class(&format!("direct:{}", c.class));
     obs.nontrivial_str(&format!("{}|{}", c.kind, c.text));
-    obs.sample(&format!("direct:{}", c.class), || json!({"kind": c.kind, "text": c.text}));
+    obs.sample(
+        &format!("direct:{}", c.class),
+        || json!({"kind": c.kind, "text": c.text}),
+    );
     let (disp, hj) = match header_parse(c.kind, &c.text) {
         Ok(x) => x,
         Err(e) => {
             if !e.is_panic() {
-                out.push(viol(format!("C10|direct|block{}|rejected", c.kind), format!("well-formed header {:?} rejected: {}", c.text, e.text())));
+                out.push(viol(
+                    format!("C10|direct|block{}|rejected", c.kind),
+                    format!("well-formed header {:?} rejected: {}", c.text, e.text()),
+                ));
             }
             return out;
         }
@@ -446,8 +679,15 @@ pub fn hdr_oracle(c: &HdrCase, obs: &mut Obs) -> Vec<Violation> {
     match c.kind {
         1 | 2 => {
             if disp != c.text {
-                let kind = if c.kind == 2 { format!("{}{}", &c.text[0..1], c.text.len()) } else { "b1".to_string() };
-                out.push(viol(format!("C10|direct|block{}|changed|{}", c.kind, kind), format!("{:?} displayed as {:?}", c.text, disp)));
+                let kind = if c.kind == 2 {
+                    format!("{}{}", &c.text[0..1], c.text.len())
+                } else {
+                    "b1".to_string()
+                };
+                out.push(viol(
+                    format!("C10|direct|block{}|changed|{}", c.kind, kind),
+                    format!("{:?} displayed as {:?}", c.text, disp),
+                ));
             }
         }
         _ => {
@@ -457,9 +697,15 @@ pub fn hdr_oracle(c: &HdrCase, obs: &mut Obs) -> Vec<Violation> {
                     continue;
                 }
                 if outp.iter().any(|(a, _)| *a == t) {
-                    out.push(viol(format!("C10|direct|block{}|{}|changed", c.kind, t), format!("{:?} displayed as {:?}", c.text, disp)));
+                    out.push(viol(
+                        format!("C10|direct|block{}|{}|changed", c.kind, t),
+                        format!("{:?} displayed as {:?}", c.text, disp),
+                    ));
                 } else if !v.is_empty() && recognised(&hj, &v) {
-                    out.push(viol(format!("C10|direct|block{}|{}|dropped", c.kind, t), format!("tag {t} read into {} but Display gives {:?}", hj, disp)));
+                    out.push(viol(
+                        format!("C10|direct|block{}|{}|dropped", c.kind, t),
+                        format!("tag {t} read into {} but Display gives {:?}", hj, disp),
+                    ));
                 } else {
                     obs.excluded(&format!("unrecognised-tag:{t}"));
                 }
@@ -469,7 +715,10 @@ pub fn hdr_oracle(c: &HdrCase, obs: &mut Obs) -> Vec<Violation> {
     // Display -> parse -> Display fixed point
     if let Ok((d2, _)) = header_parse(c.kind, &disp) {
         if d2 != disp {
-            out.push(viol(format!("C10|direct|block{}|display-not-fixed", c.kind), format!("{:?} -> {:?} -> {:?}", c.text, disp, d2)));
+            out.push(viol(
+                format!("C10|direct|block{}|display-not-fixed", c.kind),
+                format!("{:?} -> {:?} -> {:?}", c.text, disp, d2),
+            ));
         }
     }
     out
@@ -480,9 +729,25 @@ pub fn run(ctx: &Ctx) {
     ctx.assume("own sequential block splitter: blocks 1,2 end at the first `}`, 3 and 5 by brace matching, 4 at `-}`");
     ctx.assume("a block-3/5 tag counts as recognised when the parsed header's JSON holds its value (or its parts)");
     let to_json = |c: &EnvCase| serde_json::to_value(c).unwrap();
-    ctx.run_generated("envelope", MSGS.len(), ctx.n(2000, 40000), 400, &|sh, src: &mut Src| gen_env(mt_of_shard(sh), src), &oracle, &to_json);
+    ctx.run_generated(
+        "envelope",
+        MSGS.len(),
+        ctx.n(2000, 40000),
+        400,
+        &|sh, src: &mut Src| gen_env(mt_of_shard(sh), src),
+        &oracle,
+        &to_json,
+    );
     let to_json2 = |c: &HdrCase| serde_json::to_value(c).unwrap();
-    ctx.run_generated("direct", 16, ctx.n(2000, 40000), 300, &|_sh, src: &mut Src| gen_hdr(src), &hdr_oracle, &to_json2);
+    ctx.run_generated(
+        "direct",
+        16,
+        ctx.n(2000, 40000),
+        300,
+        &|_sh, src: &mut Src| gen_hdr(src),
+        &hdr_oracle,
+        &to_json2,
+    );
 }
 
 pub fn replay(_ctx: &Ctx, sub: &str, case: &Value) -> Vec<Violation> {
